@@ -286,7 +286,8 @@ def _tests_one(args):
         try:
             r = subprocess.run(cmd, capture_output=True, text=True, cwd=wt, env=env, timeout=1500)
             tail = (r.stdout + r.stderr)[-400:]
-            status = "survived" if r.returncode == 0 else ("killed" if r.returncode == 1 else f"error{r.returncode}")
+            status = "survived" if r.returncode == 0 else ("killed" if r.returncode == 1 or " failed" in tail or "stopping after" in tail or " error" in tail.lower()
+                                                           else f"error{r.returncode}")
         except subprocess.TimeoutExpired:
             status, tail = "timeout", ""
         return m["id"], {"status": status, "n_tests": len(ids), "wall_s": round(time.time() - t0, 1), "tail": tail if status != "survived" else ""}
@@ -306,6 +307,8 @@ def tests(jobs, covfile, template, only_unflagged=True, limit=None):
         sid = str(m["id"])
         if sid in done:
             continue
+        if sid not in st:
+            continue
         res = st.get(sid, {})
         if only_unflagged and (any(isinstance(x, dict) and x.get("rc") for x in res.values()) or "_error" in res):
             continue
@@ -316,18 +319,22 @@ def tests(jobs, covfile, template, only_unflagged=True, limit=None):
         todo.append((m, texts[sid], tset, template))
     if limit:
         todo = todo[:limit]
-    # cheapest first
+    # cheapest first; mutants of hot lines (many covering tests) run whole test files under xdist, fewer at a time
     todo.sort(key=lambda a: len(a[2]))
-    print(len(todo), "mutants to test")
+    small = [t for t in todo if len(t[2]) <= 400]
+    big = [t for t in todo if len(t[2]) > 400]
+    print(len(small), "mutants with <= 400 covering tests,", len(big), "hot ones")
+    from collections import Counter
     t0 = time.time()
-    with mp.Pool(jobs) as pool:
-        for k, (mid, res) in enumerate(pool.imap_unordered(_tests_one, todo)):
-            done[str(mid)] = res
-            if k % 50 == 0:
-                json.dump(done, open(outp, "w"))
-                from collections import Counter
-                print(k, round(time.time() - t0), "s", dict(Counter(v["status"] for v in done.values())), flush=True)
-    json.dump(done, open(outp, "w"))
+    for batch, j in ((small, jobs), (big, max(2, jobs // 4))):
+        with mp.Pool(j) as pool:
+            for k, (mid, res) in enumerate(pool.imap_unordered(_tests_one, batch)):
+                done[str(mid)] = res
+                if k % 50 == 0:
+                    json.dump(done, open(outp, "w"))
+                    print(k, round(time.time() - t0), "s", dict(Counter(v["status"] for v in done.values())), flush=True)
+        json.dump(done, open(outp, "w"))
+    print(dict(Counter(v["status"] for v in done.values())))
 
 
 def show(survivors, func):
